@@ -308,9 +308,10 @@ Proof.
       { apply existsb_exists. exists (nth i l d). split; [apply nth_In; lia|].
         (* cv_eqb is symmetric *)
         clear -E. revert E. generalize (nth i l d). intros c. revert x.
-        induction c as [z|s| |a IHa b IHb]; intros [z'|s'| |a' b']; simpl; try discriminate; try reflexivity.
+        induction c as [z|s| |a IHa b IHb|z]; intros [z'|s'| |a' b'|z']; simpl; try discriminate; try reflexivity.
         - now rewrite Z.eqb_sym. - now rewrite String.eqb_sym.
-        - intros H. apply andb_prop in H as [H1 H2]. now rewrite (IHa _ H1), (IHb _ H2). }
+        - intros H. apply andb_prop in H as [H1 H2]. now rewrite (IHa _ H1), (IHb _ H2).
+        - now rewrite Z.eqb_sym. }
       congruence.
     + rewrite (IH i d Hn ltac:(lia)). reflexivity.
 Qed.
